@@ -120,6 +120,28 @@ type Obs struct {
 	Site   string  `json:"site,omitempty"` // panic: first frame inside the engine
 }
 
+// Fixes says which of the repairs of the C08/C09 findings the tree under test
+// contains (coq/Funnel/Batch.v, record fixes). It is PROBED on the real code by
+// running the minimal input of each finding once (ProbeFixes), so that the same
+// model checks the shipped and the repaired tree; the property monitor does not
+// depend on it.
+type Fixes struct {
+	CondPad  bool `json:"cond_pad"`
+	More     bool `json:"more"`
+	Unfilter bool `json:"unfilter"`
+	SrcPos   bool `json:"srcpos"`
+	EmptyAck bool `json:"emptyack"`
+	V1Acker  bool `json:"v1_acker"`
+}
+
+// TreeFix is set once at start-up.
+var TreeFix Fixes
+
+func (f Fixes) coq() string {
+	return fmt.Sprintf("(mkFix %s %s %s %s %s)", hx.Bool(f.CondPad), hx.Bool(f.More), hx.Bool(f.Unfilter),
+		hx.Bool(f.SrcPos), hx.Bool(f.EmptyAck))
+}
+
 // ---- JSON ----
 
 func CaseFromJSON(m map[string]any) Case {
@@ -281,9 +303,9 @@ func cCase(c Case) string {
 	if c.DlqSize < 0 || c.DlqThr < 0 {
 		panic("ill-formed window")
 	}
-	return fmt.Sprintf("(mkCfg %s %s %s %s %d %d %s %s %s)",
+	return fmt.Sprintf("(mkCfg %s %s %s %s %d %d %s %s %s %s)",
 		hx.List(recs), hx.List(procs), cDest(c.Dest), cDest(c.Dlq), c.DlqSize, c.DlqThr,
-		cActs(c.SrcActs), hx.N(uint64(c.MaxAttempts)), hx.N(uint64(c.MaxStall)))
+		cActs(c.SrcActs), hx.N(uint64(c.MaxAttempts)), hx.N(uint64(c.MaxStall)), TreeFix.coq())
 }
 
 func cORec(r ORec) string {
